@@ -137,26 +137,43 @@ func mutationsOf(bi int, base []byte, tier string, r *RNG) []mutation {
 	if dtotal < 0 || dtotal > 64 || doff < 128 || doff+int(dtotal)*585 > len(base) {
 		dtotal = 0
 	}
-	// descriptors worth mutating: the used ones plus one free slot
-	var slots []int
+	// descriptors worth mutating: signature descriptors first (their link, type and metadata
+	// steer the verifiers), then the other used ones, plus one free slot
+	var slots, sigs, others []int
 	free := -1
 	for i := 0; i < int(dtotal); i++ {
-		if base[doff+i*585+4] != 0 {
-			slots = append(slots, i)
-		} else if free < 0 {
-			free = i
+		o := doff + i*585
+		switch {
+		case base[o+4] == 0:
+			if free < 0 {
+				free = i
+			}
+		case base[o] == 0x05 && base[o+1] == 0x40:
+			sigs = append(sigs, i)
+		default:
+			others = append(others, i)
 		}
-	}
-	if free >= 0 {
-		slots = append(slots, free)
 	}
 	maxSlots := 5
 	if tier == "thorough" {
 		maxSlots = 12
 	}
+	if len(sigs) > 2 && tier != "thorough" {
+		sigs = sigs[:2]
+	}
+	slots = append(slots, sigs...)
+	for _, i := range others {
+		if len(slots) < maxSlots-1 {
+			slots = append(slots, i)
+		}
+	}
+	if free >= 0 {
+		slots = append(slots, free)
+	}
 	if len(slots) > maxSlots {
 		slots = slots[:maxSlots]
 	}
+	sort.Ints(slots)
 	// every single-bit flip of the header and of those descriptors
 	for bit := 0; bit < 128*8; bit++ {
 		ms = append(ms, mutation{Base: bi, Kind: "flip", Flip: bit, Desc: fmt.Sprintf("bit %d of header byte %d", bit%8, bit/8)})
@@ -317,13 +334,19 @@ func battery(img []byte, tmp string, res *jobResult) {
 		}
 		// signer listing and verification, every flavour
 		u := getUniverse()
+		both := func(more ...integrity.VerifierOpt) []integrity.VerifierOpt {
+			return append([]integrity.VerifierOpt{integrity.OptVerifyWithKeyRing(u.keyring()), integrity.OptVerifyWithVerifier(u.allVerifiers()...)}, more...)
+		}
 		for _, opts := range [][]integrity.VerifierOpt{
 			{integrity.OptVerifyWithKeyRing(u.keyring())},
 			{integrity.OptVerifyWithVerifier(u.allVerifiers()...)},
-			{integrity.OptVerifyWithKeyRing(u.keyring()), integrity.OptVerifyLegacy()},
-			{integrity.OptVerifyWithKeyRing(u.keyring()), integrity.OptVerifyLegacyAll()},
-			{integrity.OptVerifyWithKeyRing(u.keyring()), integrity.OptVerifyGroup(1)},
-			{integrity.OptVerifyWithKeyRing(u.keyring()), integrity.OptVerifyObject(1)},
+			both(),
+			both(integrity.OptVerifyLegacy()),
+			both(integrity.OptVerifyLegacyAll()),
+			both(integrity.OptVerifyGroup(1)),
+			both(integrity.OptVerifyObject(1)),
+			both(integrity.OptVerifyLegacy(), integrity.OptVerifyGroup(1)),
+			both(integrity.OptVerifyLegacy(), integrity.OptVerifyObject(1)),
 			{},
 		} {
 			opts = append(opts, integrity.OptVerifyCallback(func(integrity.VerifyResult) bool { return false }))
